@@ -29,7 +29,10 @@ CLAIM = {
             "funding clause consumes are one per input and `true` only for an output proven by the streamed previous "
             "transaction (StreamedPSBT decoder, same obligations as C19 R19.4); (R8.7) the fee velocity control restored "
             "from the store is the one installed in the rebuilt node (same obligations as C12 R12.1); (R8.8) the witness "
-            "allowance is added to weight_lower_bound only for inputs of a signable spend type. Does not decide "
+            "allowance is added to weight_lower_bound only for inputs of a signable spend type; (R8.9) the fee velocity "
+            "limit test itself: VelocityControl::insert refuses whenever window sum + amount > limit (for every limit value) "
+            "before it counts, and a counted fee is persisted before success is returned (same obligations as C12 "
+            "R12.3/R12.4). Does not decide "
             "the arithmetic inequality over arbitrary amounts.",
     "note": "non-permissive policy; is_tx_non_malleable / estimate_feerate_per_kw / Address::* trusted by name",
     "technique": "static analysis: loop-iteration path rules (at-most-once credit, credit-or-unknown) + must-pass-through + guard scenarios",
@@ -47,6 +50,7 @@ def run(ctx):
     r86(ctx)
     r87(ctx)
     r88(ctx)
+    r89(ctx)
 
 
 def _updates(fv, b, var):
@@ -391,6 +395,15 @@ def r87(ctx):
     clause depends on them)"""
     from rules import C12 as _c12
     _c12.r121(ctx, rid="R8.7")
+
+
+def r89(ctx):
+    """"cumulative fees stay within the fee velocity limit": the limit test itself (VelocityControl::insert refuses every
+    amount that would push the window sum above the limit - for every limit value, also 0 - and only then counts it;
+    same obligations as C12 R12.3) and the durability of a counted fee (C12 R12.4)"""
+    from rules import C12 as _c12
+    _c12.r123(ctx, rid="R8.9")
+    _c12.r124(ctx, rid="R8.9")
 
 
 def r88(ctx):
